@@ -144,20 +144,24 @@ def check_trace(ctx, log, us, h, gt):
     if not (lo <= total <= hi):
         ctx.fail("unit-total-not-explained-by-count-draws", {"total": total, "draws": kinds["n"]}, monitor="M-TRACE")
     accepted = sorted(abs(d) for d in kinds["dur"])
-    # every unit duration equals some |duration draw|; unmatched draws must be the rejected (sub-precision) ones
+    # every unit duration equals some |duration draw| up to the rounding of (start + |d|) - start; unmatched draws
+    # must be the rejected (sub-precision) ones
+    tmax = max([abs(t) for lst in us.values() for (s_, e_, _) in lst for t in (s_, e_)] + [1.0])
+    eps = 8 * tmax * 2.3e-16 + 1e-18
     i = 0
     unmatched = []
     for d in durations:
-        while i < len(accepted) and accepted[i] < d - 1e-9 * (1 + d):
+        while i < len(accepted) and accepted[i] < d - eps:
             unmatched.append(accepted[i])
             i += 1
-        if i >= len(accepted) or abs(accepted[i] - d) > 1e-9 * (1 + d):
+        if i >= len(accepted) or abs(accepted[i] - d) > eps:
             ctx.fail("duration-not-explained-by-duration-draws", {"duration": d, "draws": accepted[:10]}, monitor="M-TRACE")
             return
         i += 1
     unmatched += accepted[i:]
-    if any(x >= PRECISION * (1 + 1e-6) + 1e-12 for x in unmatched):
-        ctx.fail("duration-draw-neither-used-nor-rejectable", {"unmatched": unmatched[:5]}, monitor="M-TRACE")
+    if any(x >= PRECISION + eps for x in unmatched):
+        ctx.fail("duration-draw-neither-used-nor-rejectable", {"unmatched": [x for x in unmatched if x >= PRECISION + eps][:5],
+                                                                "eps": eps}, monitor="M-TRACE")
     if len(kinds["gap"]) != total and len(set(durations)) == len(durations):
         ctx.fail("gap-draws-differ-from-units", {"gap_draws": len(kinds["gap"]), "units": total}, monitor="M-TRACE")
 
